@@ -4,3 +4,4 @@ import Pypika.Ctx
 import Pypika.Render
 import Pypika.RenderTerm
 import Pypika.Param
+import Pypika.Agree
